@@ -1,98 +1,13 @@
-import Mathlib.LinearAlgebra.Matrix.ToLinearEquiv
-import Mathlib.LinearAlgebra.Matrix.NonsingularInverse
-import Mathlib.Algebra.Order.BigOperators.Ring.Finset
+import Splipy.Lemmas.C14Lsq0
 import Splipy.Lemmas.C14Spec
 import Splipy.Lemmas.C14Proj
 set_option linter.unusedSectionVars false
 
 /-!
-# C14: least squares needs no solvability hypothesis
+# C14: least squares needs no solvability hypothesis (model level)
 
-Sample points containing a nested (Schoenberg–Whitney) subsequence ⇒ the collocation matrix `N` has
-full column rank ⇒ `NᵀN` is injective over an ordered field (`xᵀNᵀNx = Σ (Nx)ᵢ²`) ⇒ it has a left
-inverse ⇒ the (sound and complete) Gauss–Jordan model solves the normal equations.
+The algebra (`gram_injective_c14`, `left_inverse_of_injective_c14`) is in `C14Lsq0.lean`.
 -/
-
-namespace Splipy
-open Finset
-
-section algebra
-variable {K : Type} [Field K] [LinearOrder K] [IsStrictOrderedRing K]
-
-theorem sum_sq_eq_zero_c14 (m : ℕ) (a : ℕ → K) (h : ∑ i ∈ range m, a i ^ 2 = 0) :
-    ∀ i < m, a i = 0 := by
-  intro i hi
-  have := (sum_eq_zero_iff_of_nonneg (fun i _ => sq_nonneg (a i))).mp h i (mem_range.mpr hi)
-  exact pow_eq_zero_iff (by decide) |>.mp this
-
-/-- `xᵀ (NᵀN) x = Σ_l (N x)_l²`. -/
-theorem gram_quadratic_c14 (m n : ℕ) (N : ℕ → ℕ → K) (x : ℕ → K) :
-    ∑ i ∈ range n, x i * ∑ j ∈ range n, (∑ l ∈ range m, N l i * N l j) * x j
-      = ∑ l ∈ range m, (∑ j ∈ range n, N l j * x j) ^ 2 := by
-  have e : ∀ l ∈ range m, (∑ j ∈ range n, N l j * x j) ^ 2
-      = ∑ i ∈ range n, ∑ j ∈ range n, x i * (N l i * N l j) * x j := by
-    intro l _
-    rw [sq, sum_mul_sum]
-    exact sum_congr rfl (fun i _ => sum_congr rfl (fun j _ => by ring))
-  rw [sum_congr rfl e, sum_comm]
-  apply sum_congr rfl
-  intro i _
-  rw [mul_sum, sum_comm]
-  apply sum_congr rfl
-  intro j _
-  rw [sum_mul, mul_sum]
-  exact sum_congr rfl (fun l _ => by ring)
-
-/-- Full column rank of `N` ⇒ the Gram matrix `NᵀN` is injective. -/
-theorem gram_injective_c14 (m n : ℕ) (N : ℕ → ℕ → K)
-    (hinj : ∀ x : ℕ → K, (∀ i < m, ∑ j ∈ range n, N i j * x j = 0) → ∀ j < n, x j = 0)
-    (x : ℕ → K)
-    (h : ∀ i < n, ∑ j ∈ range n, (∑ l ∈ range m, N l i * N l j) * x j = 0) : ∀ j < n, x j = 0 := by
-  apply hinj
-  apply sum_sq_eq_zero_c14
-  rw [← gram_quadratic_c14]
-  exact sum_eq_zero (fun i hi => by rw [h i (mem_range.mp hi), mul_zero])
-
-end algebra
-
-section det
-variable {K : Type} [Field K]
-
-/-- An injective square entry function has an entrywise left inverse. -/
-theorem left_inverse_of_injective_c14 (n : ℕ) (A : ℕ → ℕ → K)
-    (hinj : ∀ x : ℕ → K, (∀ i < n, ∑ j ∈ range n, A i j * x j = 0) → ∀ j < n, x j = 0) :
-    ∃ L : ℕ → ℕ → K, ∀ i j, i < n → j < n → ∑ l ∈ range n, L i l * A l j = if i = j then 1 else 0 := by
-  set Am : Matrix (Fin n) (Fin n) K := Matrix.of fun (i j : Fin n) => A i.val j.val with hAm
-  have hdet : Am.det ≠ 0 := by
-    intro h0
-    obtain ⟨v, hv, hmv⟩ := Matrix.exists_mulVec_eq_zero_iff.2 h0
-    apply hv
-    have key := hinj (fun j => if h : j < n then v ⟨j, h⟩ else 0) (by
-      intro i hi
-      have := congrFun hmv ⟨i, hi⟩
-      simp only [Matrix.mulVec, dotProduct, hAm, Matrix.of_apply, Pi.zero_apply] at this
-      rw [← Fin.sum_univ_eq_sum_range (fun j => A i j * (if h : j < n then v ⟨j, h⟩ else 0)) n]
-      refine Eq.trans (sum_congr rfl (fun j _ => ?_)) this
-      rw [dif_pos j.isLt])
-    funext j
-    have := key j.val j.isLt
-    simp only [j.isLt, dif_pos] at this
-    exact this
-  have hinv := Matrix.nonsing_inv_mul Am (isUnit_iff_ne_zero.2 hdet)
-  refine ⟨fun i l => if h : i < n ∧ l < n then Am⁻¹ ⟨i, h.1⟩ ⟨l, h.2⟩ else 0, ?_⟩
-  intro i j hi hj
-  have := congrFun (congrFun hinv ⟨i, hi⟩) ⟨j, hj⟩
-  rw [Matrix.mul_apply, Matrix.one_apply] at this
-  simp only [Fin.ext_iff] at this
-  rw [← this, Finset.sum_range]
-  apply sum_congr rfl
-  intro l _
-  simp only []
-  rw [dif_pos ⟨hi, l.isLt⟩]
-  rfl
-
-end det
-end Splipy
 
 namespace Splipy
 open Finset
@@ -106,35 +21,35 @@ theorem colloc_full_rank {b : Basis K} (hv : b.Valid) (hper : b.periodic = -1)
     (hp : 2 ≤ b.order) (hc0 : b.kn 0 = b.kn (b.order - 1))
     (hc1 : b.kn b.numFunctions = b.kn (b.numFunctions + (b.order - 1)))
     (hmult : ∀ i, 1 ≤ i → i < b.numFunctions → b.kn i < b.kn (i + (b.order - 1)))
-    {tol : K} (htol : 0 < tol) (ts : List K) (idx : ℕ → ℕ)
+    {tol : K} (htol : 0 < tol) (ts : List K) (idx : ℕ → ℕ) (p0 p1 : Bool)
     (hidx : ∀ l, l < b.numFunctions → idx l < ts.length)
-    (hx : NestedPts b.kn (b.order - 1) b.numFunctions (fun l => ts.getD (idx l) 0))
+    (hx : GenNested b.kn (b.order - 1) b.numFunctions (fun l => ts.getD (idx l) 0) p0 p1)
     (hex : ∀ l, l < b.numFunctions → b.ExactAt tol (ts.getD (idx l) 0))
     (x : ℕ → K)
     (h : ∀ i < ts.length, ∑ j ∈ range b.numFunctions, (colloc b tol ts 0).get i j * x j = 0) :
     ∀ j < b.numFunctions, x j = 0 := by
   set ps := (List.range b.numFunctions).map (fun l => ts.getD (idx l) 0) with hps
   have hlen : ps.length = b.numFunctions := by rw [hps]; simp
-  have hget : ∀ l (hl : l < ps.length), ps[l] = ts.getD (idx l) 0 := by
-    intro l hl; simp [hps]
-  obtain ⟨Ni, hNi⟩ := colloc_invChecked_ok hv hper hp hc0 hc1 hmult htol ps hlen (fun l => ts.getD (idx l) 0) hx
-    (fun l hl => by rw [hget l hl]) hex
-  obtain ⟨_, hL⟩ := Mat.invChecked_spec _ _ hNi
-  have hnr : (Obj.basisMat b tol ps 0 true).nrows = b.numFunctions := by
-    unfold Mat.nrows; rw [(basisMat_shape b tol ps hlen).1, hlen]
-  rw [hnr] at hL
+  have hgetD : ∀ l, l < b.numFunctions → ps.getD l 0 = ts.getD (idx l) 0 := by
+    intro l hl
+    rw [hps]
+    simp [List.getD_eq_getElem?_getD, hl]
+  have hn1 : 1 ≤ b.numFunctions := by
+    have := hv.order_le_nAll
+    have := Basis.numFunctions_of_nonperiodic hper
+    omega
+  obtain ⟨L, hL⟩ := colloc_left_inverse_gen hv hper hp hc0 hc1 hmult htol ps hlen p0 p1
+    (GenNested.congr_c14 hn1 hx hgetD) (fun l hl => by rw [hgetD l hl]; exact hex l hl)
   intro j hj
-  have key := leftInv_apply b.numFunctions (fun i l => Ni.get i l)
-    (fun l k => (Obj.basisMat b tol ps 0 true).get l k) hL x j hj
+  have key := leftInv_apply b.numFunctions L (fun l k => (colloc b tol ps 0).get l k)
+    (fun i hi j hj => hL i j hi hj) x j hj
   rw [← key]
   apply sum_eq_zero
   intro l hl
   have hl' := mem_range.mp hl
-  have : ∑ k ∈ range b.numFunctions, (Obj.basisMat b tol ps 0 true).get l k * x k = 0 := by
-    rw [← h (idx l) (hidx l hl')]
-    apply sum_congr rfl
-    intro k _
-    rw [basisMat_get b tol ps l k (by omega), hget l (by omega), get_colloc b tol ts 0 (idx l) k (hidx l hl')]
+  have : ∑ k ∈ range b.numFunctions, (colloc b tol ps 0).get l k * x k = 0 := by
+    refine (sum_congr rfl (fun k _ => ?_)).trans (h (idx l) (hidx l hl'))
+    rw [get_colloc b tol ps 0 l k (by omega), hgetD l hl', get_colloc b tol ts 0 (idx l) k (hidx l hl')]
   simp only [this, mul_zero]
 
 /-- The normal matrix of such sample points has a left inverse; hence the model inverts it. -/
@@ -142,9 +57,9 @@ theorem normal_invC_ok {b : Basis K} (hv : b.Valid) (hper : b.periodic = -1)
     (hp : 2 ≤ b.order) (hc0 : b.kn 0 = b.kn (b.order - 1))
     (hc1 : b.kn b.numFunctions = b.kn (b.numFunctions + (b.order - 1)))
     (hmult : ∀ i, 1 ≤ i → i < b.numFunctions → b.kn i < b.kn (i + (b.order - 1)))
-    {tol : K} (htol : 0 < tol) (ts : List K) (idx : ℕ → ℕ)
+    {tol : K} (htol : 0 < tol) (ts : List K) (idx : ℕ → ℕ) (p0 p1 : Bool)
     (hidx : ∀ l, l < b.numFunctions → idx l < ts.length)
-    (hx : NestedPts b.kn (b.order - 1) b.numFunctions (fun l => ts.getD (idx l) 0))
+    (hx : GenNested b.kn (b.order - 1) b.numFunctions (fun l => ts.getD (idx l) 0) p0 p1)
     (hex : ∀ l, l < b.numFunctions → b.ExactAt tol (ts.getD (idx l) 0)) :
     let G := Mat.mul (Mat.transpose (colloc b tol ts 0)) (colloc b tol ts 0)
     (G.size = b.numFunctions ∧ ∀ i, i < b.numFunctions → (G.getD i #[]).size = b.numFunctions) ∧
@@ -180,7 +95,7 @@ theorem normal_invC_ok {b : Basis K} (hv : b.Valid) (hper : b.periodic = -1)
       ∀ j < b.numFunctions, x j = 0 := by
     intro x hx0
     apply gram_injective_c14 ts.length b.numFunctions (fun r j => N.get r j)
-      (fun y hy => colloc_full_rank hv hper hp hc0 hc1 hmult htol ts idx hidx hx hex y hy) x
+      (fun y hy => colloc_full_rank hv hper hp hc0 hc1 hmult htol ts idx p0 p1 hidx hx hex y hy) x
     intro i hi
     rw [← hx0 i hi]
     exact sum_congr rfl (fun j hj => by rw [hGget i j hi (mem_range.mp hj)])
@@ -192,13 +107,13 @@ theorem leastSquareCurve_ok {b : Basis K} (hv : b.Valid) (hper : b.periodic = -1
     (hp : 2 ≤ b.order) (hc0 : b.kn 0 = b.kn (b.order - 1))
     (hc1 : b.kn b.numFunctions = b.kn (b.numFunctions + (b.order - 1)))
     (hmult : ∀ i, 1 ≤ i → i < b.numFunctions → b.kn i < b.kn (i + (b.order - 1)))
-    {tol : K} (htol : 0 < tol) (ts : List K) (idx : ℕ → ℕ)
+    {tol : K} (htol : 0 < tol) (ts : List K) (idx : ℕ → ℕ) (p0 p1 : Bool)
     (hidx : ∀ l, l < b.numFunctions → idx l < ts.length)
-    (hx : NestedPts b.kn (b.order - 1) b.numFunctions (fun l => ts.getD (idx l) 0))
+    (hx : GenNested b.kn (b.order - 1) b.numFunctions (fun l => ts.getD (idx l) 0) p0 p1)
     (hex : ∀ l, l < b.numFunctions → b.ExactAt tol (ts.getD (idx l) 0))
     (x : Mat K) (m : ℕ) (hxs : x.size = ts.length ∧ ∀ i, i < ts.length → (x.getD i #[]).size = m) :
     ∃ c, leastSquareCurve b tol ts x = .ok c := by
-  obtain ⟨hshape, ⟨L, hL⟩, _⟩ := normal_invC_ok hv hper hp hc0 hc1 hmult htol ts idx hidx hx hex
+  obtain ⟨hshape, ⟨L, hL⟩, _⟩ := normal_invC_ok hv hper hp hc0 hc1 hmult htol ts idx p0 p1 hidx hx hex
   set N := colloc b tol ts 0 with hN
   have hn : 0 < b.numFunctions := by
     have := hv.order_le_nAll
